@@ -132,6 +132,26 @@ func HarnessC12Positions() {
 		src = append(src, g...)
 		t := vfTokenSpellings[vfParamInt("t"+string(rune('0'+i)))]
 		wants = append(wants, want{line, col, t})
+		if t == "not in" {
+			// the two-word operator: arbitrary (symbolic) whitespace between its words
+			w := vfBytes("inner", 1)
+			src = append(src, "not"...)
+			col += 3
+			for j := 0; j < len(w); j++ {
+				c := w[j]
+				vfAssume(c == ' ' || c == '\n' || c == '\t' || c == '\r')
+				if c == '\n' {
+					line++
+					col = 0
+				} else {
+					col++
+				}
+			}
+			src = append(src, w...)
+			src = append(src, "in"...)
+			col += 2
+			continue
+		}
 		src = append(src, t...)
 		col += utf8.RuneCountInString(t)
 	}
@@ -147,5 +167,8 @@ func HarnessC12Positions() {
 	}
 	for i, w := range wants {
 		vfAssert(tokens[i].Line == w.line && tokens[i].Column == w.col, "c12.pos.token-location-is-its-first-character")
+		if w.text == "not in" {
+			vfAssert(tokens[i].Value == "not in", "c12.pos.whitespace-inside-not-in-is-insignificant")
+		}
 	}
 }
